@@ -31,8 +31,11 @@ def UCHAR_OPEN : Nat := 40      -- '('
 def UCHAR_CLOSE : Nat := 41     -- ')'
 /-- `INT_MAX` of the platform the library is built for (32-bit `int`) -/
 def INT_MAX : Nat := 2147483647
-/-- `(INT_MAX / 10) - 1`: the exponent accumulator stops taking digits once it reaches this value -/
-def expSatLimit : Nat := 214748363
+/-- `INT_MAX / 20`: the exponent accumulator stops taking digits once it reaches this value (leaves more than 10⁹ of
+    head room below INT_MAX for the digit counts that are later added to the scale) -/
+def expSatLimit : Nat := 107374182
+/-- the bound of the tree before fix d4436fb, `(INT_MAX / 10) - 1` (kept for the counterexample theorem) -/
+def expSatLimitPinned : Nat := 214748363
 def CIF_LINE_LENGTH : Nat := 2048
 def DBL_MANT_DIG : Nat := 53
 def DBL_DIG : Nat := 15
@@ -83,13 +86,16 @@ def trimZeros : Str → Str
   | [] => []
   | c :: rest => if c = UCHAR_0 ∧ rest ≠ [] then trimZeros rest else c :: rest
 
-/-- one step of the exponent accumulation, with the saturation introduced by the overflow fix:
-    `if (exponent < (INT_MAX / 10) - 1) exponent = exponent * 10 + (c - '0');` -/
-def expStep (e : Nat) (c : Nat) : Nat :=
-  if e < expSatLimit then e * 10 + (c - UCHAR_0) else e
+/-- one step of the exponent accumulation, with the saturation introduced by the overflow fixes (`lim` = the bound):
+    `if (exponent < INT_MAX / 20) exponent = exponent * 10 + (c - '0');` -/
+def expStepL (lim : Nat) (e : Nat) (c : Nat) : Nat :=
+  if e < lim then e * 10 + (c - UCHAR_0) else e
 
 /-- the exponent digit loop -/
-def expAccum (ds : Str) : Nat := ds.foldl expStep 0
+def expAccumL (lim : Nat) (ds : Str) : Nat := ds.foldl (expStepL lim) 0
+
+def expStep (e c : Nat) : Nat := expStepL expSatLimit e c
+def expAccum (ds : Str) : Nat := expAccumL expSatLimit ds
 
 /-- character codes → digit values -/
 def digitVals (s : Str) : List Nat := s.map (· - UCHAR_0)
@@ -102,18 +108,16 @@ def takeSign (s : Str) : Bool × Str :=
 
 /-- the optional exponent part, entered when the next unit is `E`/`e`: `none` = CIF_INVALID_NUMBER,
     `some (scale contribution, rest)` -/
-def parseExp (s : Str) : Option (Int × Str) :=
+def parseExpL (lim : Nat) (s : Str) : Option (Int × Str) :=
   match s with
   | c :: r =>
     if c = UCHAR_E ∨ c = UCHAR_e then
-      let (eneg, r1) := takeSign r
-      let ex := r1.takeWhile isDigit
-      let r2 := r1.dropWhile isDigit
-      if ex = [] then none                                  -- no exponent digits
+      if (takeSign r).2.takeWhile isDigit = [] then none                                  -- no exponent digits
       else
-        let e : Int := (expAccum ex : Nat)
         -- n_temp.scale = exponent * (-exp_sign)
-        some (if eneg then e else -e, r2)
+        some (if (takeSign r).1 then ((expAccumL lim ((takeSign r).2.takeWhile isDigit) : Nat) : Int)
+              else -((expAccumL lim ((takeSign r).2.takeWhile isDigit) : Nat) : Int),
+              (takeSign r).2.dropWhile isDigit)
     else some (0, s)
   | [] => some (0, [])
 
@@ -122,48 +126,53 @@ def parseSu (s : Str) : Option (Option Str × Str) :=
   match s with
   | c :: r =>
     if c = UCHAR_OPEN then
-      let sd := r.takeWhile isDigit
-      let r1 := r.dropWhile isDigit
-      match r1 with
+      match r.dropWhile isDigit with
       | c1 :: r2 =>
-        if sd = [] ∨ c1 ≠ UCHAR_CLOSE then none
-        else some (some (trimZeros sd), r2)
+        if r.takeWhile isDigit = [] ∨ c1 ≠ UCHAR_CLOSE then none
+        else some (some (trimZeros (r.takeWhile isDigit)), r2)
       | [] => none                                          -- missing ')'
     else some (none, s)
   | [] => some (none, [])
 
-/-- `cif_value_parse_numb` on a NUL-free text: `none` = CIF_INVALID_NUMBER (value object untouched). -/
-def parseNumbZ (text : Str) : Option NumbFields :=
-  -- optional leading sign
-  let (neg, s0) := takeSign text
-  -- mandatory digit string with optional single decimal point
-  let a := s0.takeWhile isDigit
-  let s1 := s0.dropWhile isDigit
-  let hasPoint : Bool := match s1 with | c :: _ => c = UCHAR_DECIMAL | [] => false
-  let s2 := if hasPoint then s1.drop 1 else s1
-  let b := if hasPoint then s2.takeWhile isDigit else []
-  let s3 := if hasPoint then s2.dropWhile isDigit else s2
+/-! the mandatory digit string with optional single decimal point, on the text after the sign -/
+
+/-- digits before the point -/
+def mantA (s0 : Str) : Str := s0.takeWhile isDigit
+def afterA (s0 : Str) : Str := s0.dropWhile isDigit
+/-- the scan loop takes one decimal point -/
+def hasPoint (s0 : Str) : Bool := match afterA s0 with | c :: _ => decide (c = UCHAR_DECIMAL) | [] => false
+/-- digits after the point -/
+def mantB (s0 : Str) : Str := if hasPoint s0 then ((afterA s0).drop 1).takeWhile isDigit else []
+/-- what follows the digit string (`text + pos` after the scan loop) -/
+def afterMant (s0 : Str) : Str := if hasPoint s0 then ((afterA s0).drop 1).dropWhile isDigit else afterA s0
+/-- `num_decimal` after "Consume a trailing decimal point": a point with digits behind it -/
+def numDecimal (s0 : Str) : Bool := hasPoint s0 && !(mantB s0).isEmpty
+/-- `text[digit_start .. digit_end)` before the trimming loop -/
+def mantRegion (s0 : Str) : Str := if numDecimal s0 then mantA s0 ++ UCHAR_DECIMAL :: mantB s0 else mantA s0
+/-- the digit string copied into the value: trimmed region without the point, as digit values -/
+def mantDigits (s0 : Str) : List Nat := digitVals ((trimLead (mantRegion s0)).filter (· ≠ UCHAR_DECIMAL))
+
+/-- `cif_value_parse_numb` on a NUL-free text with saturation bound `lim`: `none` = CIF_INVALID_NUMBER (value object
+    untouched). -/
+def parseNumbZL (lim : Nat) (text : Str) : Option NumbFields :=
   -- pos <= digit_start + num_decimal : no digits
-  if a.length + b.length = 0 then none
+  if (mantA (takeSign text).2).length + (mantB (takeSign text).2).length = 0 then none
   else
-    -- a trailing decimal point is consumed: num_decimal = 0, digit_end = pos - 1
-    let numDecimal : Bool := hasPoint && !b.isEmpty
-    let region : Str := if numDecimal then a ++ UCHAR_DECIMAL :: b else a
-    let kept := trimLead region
-    match parseExp s3 with
+    match parseExpL lim (afterMant (takeSign text).2) with
     | none => none
-    | some (esc, s4) =>
-      -- if (num_decimal == 1) scale += digit_end - (decimal_pos + 1)
-      let scale : Int := if numDecimal then esc + (b.length : Nat) else esc
-      match parseSu s4 with
+    | some r =>
+      match parseSu r.2 with
       | none => none
-      | some (su, s5) =>
-        if s5 ≠ [] then none                                -- unparsed tail
+      | some u =>
+        if u.2 ≠ [] then none                                -- unparsed tail
         else
-          some { neg := neg
-                 digits := digitVals (kept.filter (· ≠ UCHAR_DECIMAL))
-                 su := su.map digitVals
-                 scale := scale }
+          some { neg := (takeSign text).1
+                 digits := mantDigits (takeSign text).2
+                 su := u.1.map digitVals
+                 -- if (num_decimal == 1) scale += digit_end - (decimal_pos + 1)
+                 scale := if numDecimal (takeSign text).2 then r.1 + ((mantB (takeSign text).2).length : Nat) else r.1 }
+
+def parseNumbZ (text : Str) : Option NumbFields := parseNumbZL expSatLimit text
 
 /-- `cif_value_parse_numb(n, text)`: the fields on success, `none` when the C returns CIF_INVALID_NUMBER and leaves
     the value object unchanged. -/
